@@ -45,6 +45,8 @@ def compile_program(prog, db_kind='plain', open_opts='workers=0'):
     exists = set()
     expect = []
     bid = 0
+    crashes = []        # (image number, {ks: dict}, [existing keyspaces]) — process-crash images taken by the driver (copydir)
+    compile_program.crashes = crashes
     for op in prog:
         k = op[0]
         if k == 'ks':
@@ -81,8 +83,15 @@ def compile_program(prog, db_kind='plain', open_opts='workers=0'):
             L.append('worker_drain')
         elif k == 'major_compact':
             L.append(f'major_compact {op[1]}')
+        elif k == 'crash':
+            import copy
+            L.append(f'copydir $DIR/db $DIR/img{len(crashes) + 1}')
+            crashes.append((len(crashes) + 1, copy.deepcopy({n: model[n] for n in exists}), sorted(exists)))
+        elif k == 'journals':
+            L.append('journal_count'); expect.append((len(L) - 1, f'n={op[1]}', 'number of journal files'))
         elif k == 'reopen':
             L.append('close'); L.append(f'open {open_opts}')
+            L.append('list_ks'); expect.append((len(L) - 1, '[' + ','.join(sorted(exists)) + ']', 'set of keyspaces after reopen'))
             for n in sorted(exists):
                 L.append(f'ks {n}')
         elif k == 'delete_ks':
@@ -100,7 +109,19 @@ def compile_program(prog, db_kind='plain', open_opts='workers=0'):
 def run_program(ctx, prog, tag, **kw):
     """returns (violated, replay_path, detail)"""
     text, expect, L = compile_program(prog, **kw)
-    spath, out = ctx.run_scenario(text, tag=tag)
+    crashes = list(compile_program.crashes)
+    spath, out = ctx.run_scenario(text, tag=tag, keep_work=bool(crashes))
+    work = ctx.last_work
+    try:
+        return _judge(ctx, prog, tag, text, expect, L, crashes, spath, out, work, kw)
+    finally:
+        if crashes:
+            import shutil
+            shutil.rmtree(work, ignore_errors=True)
+
+
+def _judge(ctx, prog, tag, text, expect, L, crashes, spath, out, work, kw):
+    import os
     res = {i: r for i, _c, r in out}
     if any(c == 'CRASH' for _i, c, _r in out):
         return True, spath, 'crash: ' + out[-1][2][-300:]
@@ -118,7 +139,31 @@ def run_program(ctx, prog, tag, **kw):
     errs = [(L[i - 1], r) for i, _c, r in out if r.startswith('err') and 0 < i <= len(L)]
     if errs:
         return True, spath, f'operation failed: {errs[:2]}'
-    return False, spath, 'agrees with the reference map'
+    # process-crash images: each must reopen and hold exactly the state acknowledged at that point (automatic persist: every write is flushed to the OS before it returns)
+    open_opts = kw.get('open_opts', 'workers=0')
+    for n, model, names in crashes:
+        img = os.path.join(work, f'img{n}')
+        L2 = [f'dir {img}', f'kind {kw.get("db_kind", "plain")}', f'open {open_opts}', 'list_ks'] + [f'ks {x}' for x in names] + [f'readall {x} ' + ','.join(KEYS) for x in names] + ['close']
+        sp2, out2 = ctx.run_scenario('\n'.join(L2) + '\n', tag=f'{tag}-img{n}')
+        if any(c == 'CRASH' for _i, c, _r in out2):
+            return True, sp2, f'recovering crash image #{n} crashed: ' + out2[-1][2][-200:]
+        op = [r for _i, c, r in out2 if c == 'open']
+        if not op or op[0] != 'ok':
+            return True, sp2, f'crash image #{n} (taken after `{" ; ".join(x for x in L[3:] if not x.startswith(("readall", "copydir")))[-160:]}`) does not reopen: {op}'
+        lk = [r for _i, c, r in out2 if c == 'list_ks']
+        if lk and lk[0] != '[' + ','.join(names) + ']':
+            return True, sp2, f'crash image #{n}: keyspaces {lk[0]}, expected {names}'
+        ra = [r for _i, c, r in out2 if c == 'readall']
+        for x, got in zip(names, ra):
+            want = model_readall(model[x], KEYS)
+            if got != want:
+                gp, wp = got.split(';'), want.split(';')
+                diff = [(a, b) for a, b in zip(gp, wp) if a != b][:1]
+                # which copydir was it: show the operations before it
+                upto = [i for i, l in enumerate(L) if l.startswith(f'copydir $DIR/db $DIR/img{n}')][0]
+                hist = ' ; '.join(l for l in L[3:upto] if not l.startswith(('readall', 'copydir')))
+                return True, sp2, f'crash image #{n}: keyspace {x} lost or gained data after a process crash at this point: got {diff and diff[0][0]}, acknowledged state {diff and diff[0][1]} (history: {hist[-400:]})'
+    return False, spath, 'agrees with the reference map' + (f' (and {len(crashes)} crash images)' if crashes else '')
 
 
 def battery(focus=None):
